@@ -1,1 +1,21 @@
-fn main(){}
+//! E5: concurrency workloads on zksync_concurrency only (so that the same binary runs natively,
+//! under Miri, ThreadSanitizer and AddressSanitizer): C17 task scopes, C15(a) limiter,
+//! C16(a') the generic prunable queue.
+mod c15;
+mod c17;
+mod chan;
+
+use vcommon::{Args, Report};
+
+fn main() {
+    let args = Args::parse();
+    vcommon::install_quiet_panic_hook();
+    let mut rep = Report::new(&args);
+    match args.prop.as_str() {
+        "C17" => c17::run(&args, &mut rep),
+        "C15" => c15::run(&args, &mut rep),
+        "C16" => chan::run(&args, &mut rep),
+        p => panic!("unknown property {p}"),
+    }
+    std::process::exit(rep.finish());
+}
